@@ -5,7 +5,7 @@ from . import chrun
 from .common import ROOT
 
 
-def jobs_for(module, func, nlexeme, nlex, timeout, extra_subst=None, parts=None, twin_first_only=True):
+def jobs_for(module, func, nlexeme, nlex, timeout, extra_subst=None, parts=None, twin_first_only=True, why=None):
     path = os.path.join(ROOT, module)
     out = []
     parts = list(range(nlexeme)) if parts is None else parts
@@ -13,11 +13,15 @@ def jobs_for(module, func, nlexeme, nlex, timeout, extra_subst=None, parts=None,
         sub = {'PART = -1': f'PART = {part}', 'NLEXEME = 16': f'NLEXEME = {nlexeme}', 'NLEX = 3': f'NLEX = {nlex}'}
         if extra_subst:
             sub.update(extra_subst)
-        out.append(chrun.Job(path, func, timeout, subst=sub, label=f'{func}[first lexeme {part}]', twin=(k == 0 or not twin_first_only)))
+        def explain(mod, args, why=why):
+            a, kw = args
+            ks = a[0] if a else kw.get('ks')
+            text = mod._text(ks)
+            d = dict(input=text)
+            if why:
+                d['why'] = getattr(mod, why)(text, *a[1:], **{k: v for k, v in kw.items() if k != 'ks'})
+            return d
+        out.append(chrun.Job(path, func, timeout, subst=sub, label=f'{func}[first lexeme {part}]', twin=(k == 0 or not twin_first_only), explain=explain))
     return out
 
 
-def native_why(module, why_func, call, func):
-    """recompute the failing text and the reason natively from a CrossHair counterexample call"""
-    mod = chrun.load_module(os.path.join(ROOT, module), 'vf_native_' + os.path.basename(module)[:-3])
-    return mod
